@@ -11,6 +11,9 @@ MRU_CHOICES = [1, 2, 3, 7, 50, 10240, 10485760, 2 ** 64 - 1]
 
 def gen_cfg(rng, timers=False):
     cfg = {'seg_init': rng.choice(SEG_CHOICES), 'seg_mru': rng.choice(MRU_CHOICES)}
+    # adaptive segment size (PID controller on ACK round-trip time) in a third of the runs
+    if rng.random() < 0.33:
+        cfg['modulate'] = rng.choice([0.001, 0.05, 1.0])
     if timers:
         cfg['keepalive'] = rng.choice([0, 1, 2, 5, 30])
         cfg['idle'] = rng.choice([0, 0, 3, 10, 60])
